@@ -61,6 +61,83 @@ def _loop(fv, ob):
     return one([n for n in walk_local(fv.func) if isinstance(n, ast.While)], 'segment loop', ob)
 
 
+def _send_helpers(tree):
+    ''' methods of TxSendWait that call <param>.sender(<param>): name -> (func, index of the item argument, index of the datagram argument) '''
+    res = {}
+    cls = tree.klass(UAGENT, 'TxSendWait')
+    for m in cls.body:
+        if not isinstance(m, ast.FunctionDef):
+            continue
+        params = [a.arg for a in m.args.args][1:]
+        for c in calls_in(m):
+            got = pm('$i.sender($d)', c)
+            if got is not None and src(got['i']) in params and src(got['d']) in params:
+                res[m.name] = (m, params.index(src(got['i'])), params.index(src(got['d'])))
+    return res
+
+
+def c13_pending_datagram(tree, ob):
+    ''' self.cur_dgram holds the segment of the current transfer that waits for tokens.  It is forgotten only once it has
+    been handed to the sender (or the whole transfer is given up): clearing it on any other occasion -- e.g. after a
+    datagram of another item was sent -- drops that segment, the iterator moves on, and the transfer is reported as sent
+    with a hole in it. '''
+    cls = tree.klass(UAGENT, 'TxSendWait')
+    helpers = _send_helpers(tree)
+    n = 0
+    for (f, st, k, v) in stores_to_self_attr(cls, 'cur_dgram'):
+        if f.name == '__init__':
+            continue
+        n += 1
+        fv = FuncView(tree, UAGENT, 'TxSendWait.' + f.name)
+        if not (isinstance(v, ast.Constant) and v.value is None):
+            if pm('next(self.cur_item.dgram_iter)', v) is not None and fv.has(st, 'self.cur_dgram is None', True):
+                ob.site(UAGENT, st, 'next segment taken only when none is pending')
+            else:
+                ob.violate(UAGENT, fv.qual, src(st)[:70], 'the pending segment is replaced by something other than the next segment of the current transfer, or while one is still pending', st)
+            continue
+        # (in the same statement list: the transfer is given up right there, not somewhere else in the function)
+        from ..core import parent
+        sibs = []
+        par = parent(st)
+        for fld in ('body', 'orelse', 'finalbody'):
+            blk = getattr(par, fld, None)
+            if isinstance(blk, list) and st in blk:
+                sibs = blk
+        gives_up = any(isinstance(x, ast.Assign) and any(src(t) == 'self.cur_item' for t in x.targets) and isinstance(x.value, ast.Constant) and x.value.value is None for x in sibs)
+        if gives_up:
+            ob.site(UAGENT, st, 'pending segment dropped together with its transfer')
+            continue
+        sends = []
+        for c in calls_in(f):
+            got = pm('$i.sender($d)', c)
+            if got is not None and fv.dominates(c, st)[0]:
+                sends.append((c, src(got['d'])))
+            if isinstance(c.func, ast.Attribute) and dotted(c.func.value) == 'self' and c.func.attr in helpers and fv.dominates(c, st)[0]:
+                (hf, ip, dp) = helpers[c.func.attr]
+                if len(c.args) > dp:
+                    sends.append((c, src(c.args[dp])))
+        params = [a.arg for a in f.args.args][1:]
+        ok = False
+        why = 'no send of the pending segment precedes the clearing'
+        for (c, d) in sends:
+            if d == 'self.cur_dgram':
+                ok = True
+            elif d in params:
+                # decided at the call sites: each must pass the pending segment itself
+                sites = [x for m in cls.body if isinstance(m, ast.FunctionDef) for x in method_calls(m, f.name, 'self')]
+                wrong = [x for x in sites if not (len(x.args) > params.index(d) and src(x.args[params.index(d)]) == 'self.cur_dgram')]
+                if sites and not wrong:
+                    ok = True
+                else:
+                    why = 'it is cleared by {}(), which is also called for a datagram that is not the pending one ({})'.format(f.name, src(wrong[0])[:60] if wrong else 'no call site')
+        if ok:
+            ob.site(UAGENT, st, 'pending segment forgotten only after it was handed to the sender')
+        else:
+            ob.violate(UAGENT, fv.qual, src(st), 'the segment that waits for tokens is forgotten without having been sent ({}): the transfer goes on with the next segment and is reported '
+                       'as success although the receiver can never complete it'.format(why), st)
+    ob.require(n >= 2, 'stores to cur_dgram found: {}'.format(n))
+
+
 def c13_tx_isolation(tree, ob):
     ''' The pacing loop runs in a timer callback.  A transfer that cannot be cut (MTU below the segment overhead: the
     generator raises) or cannot be written (EMSGSIZE) must cost that transfer only: an exception out of the callback
@@ -68,6 +145,11 @@ def c13_tx_isolation(tree, ob):
     fv = FuncView(tree, UAGENT, 'TxSendWait._update_send')
     from ..cfg import handler_names
     risky = [c for c in calls_in(fv.func) if pm('next(self.cur_item.dgram_iter)', c) is not None or pm('self.cur_item.sender($d)', c) is not None]
+    # ... or through a helper method that sends for the item it is given
+    for (hname, (hf, ip, dp)) in sorted(_send_helpers(tree).items()):
+        for c in method_calls(fv.func, hname, 'self'):
+            if len(c.args) > ip and src(c.args[ip]) == 'self.cur_item':
+                risky.append(c)
     ob.require(len(risky) >= 2, 'generator / sender calls of the current item not found')
     for c in risky:
         ok = False
@@ -96,6 +178,7 @@ def c13_tx_isolation(tree, ob):
 
 def c13b(tree, ob):
     c13_tx_isolation(tree, ob)
+    c13_pending_datagram(tree, ob)
     fv = FuncView(tree, UAGENT, QS)
     loop = _loop(fv, ob)
     til = tiling(fv, loop, ob, UAGENT, 'UDPCL segment tiling')
@@ -264,6 +347,37 @@ def c13e(tree, ob):
         ob.violate(UAGENT, fv.qual, 'if not first_data: break', 'the loop does not stop at the end of the datagram', loop)
     else:
         ob.site(UAGENT, p, 're-peek before each message, stop at the end')
+    # what is walked is the datagram as it arrived: the reader is opened on the parameter itself, which nothing rebinds
+    # (a datagram "tidied" first -- trailing zero octets stripped as padding -- loses the zero octets a bundle ends with)
+    dparam = 'data'
+    ob.require(dparam in [a.arg for a in fv.func.args.args], '_recv_datagram(data) parameter')
+    rebinds = [n for n in walk_local(fv.func) if isinstance(n, ast.Name) and n.id == dparam and isinstance(n.ctx, ast.Store)]
+    opens = [c for c in calls_in(fv.func) if pm('BufferedReader(BytesIO($d))', c) is not None]
+    o = one(opens, 'reader over the datagram', ob)
+    od = fv.value_at(o.args[0].args[0], o, depth=3, keep=(dparam,))
+    if rebinds:
+        ob.violate(UAGENT, fv.qual, src(enclosing(rebinds[0], ast.stmt) or rebinds[0])[:70], 'the received datagram is rewritten before it is decoded: octets that belong to a bundle or a segment '
+                   '(e.g. trailing zero octets) are lost, and what is queued is not what was sent', rebinds[0])
+    elif src(od) != dparam:
+        ob.violate(UAGENT, fv.qual, src(o)[:70], 'the reader is not opened on the datagram as it arrived', o)
+    else:
+        ob.site(UAGENT, o, 'the datagram is decoded as it arrived')
+    # ... and all of it: the receive calls ask for the largest datagram there can be, not for what the local configuration
+    # says about sending (the peer's MTU is its own; recvmsg() silently cuts a longer datagram)
+    from .common import _num
+    for (q, pat) in (('Agent._sock_recvfrom', 'sock.recvmsg($n, $a)'), ('Agent._dtlsconn_recv', 'conn.read($n)')):
+        fr = FuncView(tree, UAGENT, q)
+        calls = [c for c in calls_in(fr.func) if pm(pat, c) is not None]
+        c = one(calls, 'receive call in ' + q, ob)
+        size = fr.value_at(pm(pat, c)['n'], c, depth=3)
+        val = _num(tree, UAGENT, size)
+        if val is None:
+            ob.violate(UAGENT, q, src(c)[:60] + ' with size ' + src(size)[:50], 'the size asked of the socket is not a constant: a datagram longer than what the local configuration suggests is cut '
+                       'by the kernel and the bundle or segment in it is lost or queued truncated', c)
+        elif val < 65535:
+            ob.violate(UAGENT, q, src(c)[:60] + ' with size {}'.format(val), 'datagrams of up to 65535 octets exist; a longer one than {} is cut by the kernel'.format(val), c)
+        else:
+            ob.site(UAGENT, c, 'receive size {} covers every datagram'.format(val))
     # bundle branch
     adds = method_calls(fv.func, '_add_rx_item', 'self')
     a = one(adds, 'bundle queue in _recv_datagram', ob)
@@ -374,25 +488,32 @@ def c13g(tree, ob, rel):
                     ob.site(rel, it, qual + ': received item gets a local id')
 
 
-def c13f(tree, ob):
-    fv = FuncView(tree, UAGENT, 'Agent._add_rx_item')
+def c13f(tree, ob, rel=None):
+    rel = rel or UAGENT
+    fv = FuncView(tree, rel, 'Agent._add_rx_item')
     stores = [n for n in walk_local(fv.func) if isinstance(n, ast.Assign) and pm('self._rx_queue[$k]', n.targets[0]) is not None]
     s = one(stores, 'RX queue store', ob)
     fin = one(method_calls(fv.func, 'recv_bundle_finished', 'self'), 'recv_bundle_finished', ob)
     if src(s) != 'self._rx_queue[item.transfer_id] = item' or src(fin.args[0]) != 'str(item.transfer_id)' or src(fin.args[1]) != 'item.total_length' or not fv.dominates(s, fin)[0]:
-        ob.violate(UAGENT, fv.qual, src(fin)[:80], 'the announced id/length is not that of the bundle just queued, or it is announced before being queued', fin)
+        ob.violate(rel, fv.qual, src(fin)[:80], 'the announced id/length is not that of the bundle just queued, or it is announced before being queued', fin)
     else:
-        ob.site(UAGENT, fin, 'queue, then announce (id, length)')
-    cls = tree.klass(UAGENT, 'Agent')
+        ob.site(rel, fin, 'queue, then announce (id, length)')
+    cls = tree.klass(rel, 'Agent')
     for attr in ('_rx_id', '_tx_id'):
         for (f, st, k, v) in stores_to_self_attr(cls, attr):
             if f.name == '__init__' and isinstance(v, ast.Constant):
                 continue
             if k == 'aug' and isinstance(st.op, ast.Add) and isinstance(v, ast.Constant) and v.value == 1:
-                ob.site(UAGENT, st, attr + ' += 1')
+                ob.site(rel, st, attr + ' += 1')
             else:
-                ob.violate(UAGENT, 'Agent.' + f.name, src(st), 'id counter is written other than by += 1', st)
+                ob.violate(rel, 'Agent.' + f.name, src(st), 'id counter is written other than by += 1', st)
     ids = [n for n in walk_local(fv.func) if isinstance(n, ast.Assign) and src(n.targets[0]) == 'item.transfer_id']
     i = one(ids, 'id assignment', ob)
     if pm('copy.copy(self._rx_id)', i.value) is None and src(i.value) != 'self._rx_id':
-        ob.violate(UAGENT, fv.qual, src(i), 'received bundle id is not taken from the counter', i)
+        ob.violate(rel, fv.qual, src(i), 'received bundle id is not taken from the counter', i)
+    else:
+        incs = [st for (f, st, k, v) in stores_to_self_attr(cls, '_rx_id') if f is fv.func and k == 'aug']
+        if not incs or not fv.dominates(i, incs[0])[0]:
+            ob.violate(rel, fv.qual, src(i), 'the receive counter is not advanced after an id was taken from it: two received bundles get the same id', i)
+        else:
+            ob.site(rel, i, 'id from the receive counter, which then advances')
